@@ -8,7 +8,8 @@ From the AST (fail-closed: any shape not recognised raises and the check reports
   followed by `elif not self.server_mode:` whose body sets `reject = True`.
 * Transport._parse_global_request: the first branch is `if not self.server_mode:` and only sets `ok = False`.
 * the reply hand-over to the waiting thread stores the value before signalling the event
-  (Transport.global_response / completion_event, Channel.event_ready / event).
+  (Transport.global_response and the event _parse_request_* signal, Channel.event_ready / event), and nothing
+  but a stored reply signals the event a global_request(wait=True) waits on (not the end of a re-key).
 * every assignment to _x11_handler / _forward_agent_handler / _tcp_handler anywhere in paramiko/ happens in
   one of the known functions (the enable / cancel operations the model's history is made of).
 From live objects: message numbers and OPEN_FAILED_ADMINISTRATIVELY_PROHIBITED.
@@ -224,11 +225,25 @@ def _setter_sites(repo):
         raise RuntimeError("expected handler assignments not found: %s" % sorted(missing))
 
 
-def _publish_before_signal(tree, cls, entry_points, field, event):
+def _publish_before_signal(tree, cls, entry_points, field, event=None, exclusive=False):
     """Hand-over of a reply to a waiting thread: in class `cls`, every function (other than __init__ and the
     ones that clear it before waiting) that assigns self.<field> must do so BEFORE it calls self.<event>.set(),
     and each entry point must be such a function itself or call exactly one of them.  A waiter woken by the
-    event otherwise reads the previous request's value."""
+    event otherwise reads the previous request's value.  event=None: the event is whatever self.X.set() the
+    first entry point (or the helper it calls) signals.  exclusive: no other function of the class may signal
+    that event (e.g. the end of a key exchange) - the waiter would wake without a reply having been stored."""
+    if event is None:
+        f0 = _find_method(tree, cls, entry_points[0])
+        fns = [f0] + [_find_method(tree, cls, n.func.attr) for n in ast.walk(f0)
+                      if isinstance(n, ast.Call) and _is_self_attr(n.func) and n.func.attr.startswith("_")
+                      and any(isinstance(g, ast.FunctionDef) and g.name == n.func.attr
+                              for k in ast.walk(tree) if isinstance(k, ast.ClassDef) and k.name == cls for g in k.body)]
+        evs = {n.func.value.attr for f in fns for n in ast.walk(f)
+               if isinstance(n, ast.Call) and isinstance(n.func, ast.Attribute) and n.func.attr == "set"
+               and _is_self_attr(n.func.value)}
+        if len(evs) != 1:
+            raise RuntimeError("%s.%s: expected exactly one self.<event>.set(), found %r" % (cls, entry_points[0], sorted(evs)))
+        event = evs.pop()
     klass = None
     for node in ast.walk(tree):
         if isinstance(node, ast.ClassDef) and node.name == cls:
@@ -253,14 +268,25 @@ def _publish_before_signal(tree, cls, entry_points, field, event):
                     clears.append(n.lineno)
         if not assigns:
             continue
+        creates = any(isinstance(n, ast.Assign) and any(_is_self_attr(x, event) for t in n.targets for x in ast.walk(t))
+                      for n in ast.walk(f))
         if not sets:
-            if clears:
-                continue          # preparing to wait (e.g. Channel._event_pending), not a hand-over
+            if clears or creates:
+                continue          # preparing to wait (Channel._event_pending, Transport.global_request)
             raise RuntimeError("%s.%s assigns self.%s but never signals self.%s" % (cls, f.name, field, event))
         if max(assigns) >= min(sets):
             raise RuntimeError("%s.%s signals self.%s before storing self.%s: a woken waiter can read the previous "
                                "value" % (cls, f.name, event, field))
         good.add(f.name)
+    if exclusive:
+        for f in klass.body:
+            if isinstance(f, ast.FunctionDef) and f.name not in good:
+                for n in ast.walk(f):
+                    if (isinstance(n, ast.Call) and isinstance(n.func, ast.Attribute) and n.func.attr == "set"
+                            and _is_self_attr(n.func.value, event)):
+                        raise RuntimeError("%s.%s signals self.%s, the event the waiter for self.%s waits on, without "
+                                           "storing a reply: the waiter wakes up with the previous request's value"
+                                           % (cls, f.name, event, field))
     for ep in entry_points:
         f = _find_method(tree, cls, ep)
         if ep in good:
@@ -284,7 +310,7 @@ def generate(repo):
     _global_guard(ttree)
     _setter_sites(repo)
     _publish_before_signal(ttree, "Transport", ["_parse_request_success", "_parse_request_failure"],
-                           "global_response", "completion_event")
+                           "global_response", exclusive=True)
     _publish_before_signal(ctree, "Channel", ["_request_success"], "event_ready", "event")
     out = ["(* GENERATED by gen/c18.py from the working tree - do not edit *)",
            "From Coq Require Import ZArith List.", "Import ListNotations.", "Open Scope Z_scope.", ""]
